@@ -76,11 +76,13 @@ def make_transport(kind: str, connect_fail: bool, disconnect_fail: bool):
                 raise ConnectionRefusedError("injected")
             state["c"] += 1
             state["w"] = FakeWriter()
+            state["r"] = asyncio.StreamReader()
             if disconnect_fail:
                 state["w"].fault = "close"   # absorbed by the stream transport
-            return asyncio.StreamReader(), state["w"]
+            return state["r"], state["w"]
 
         tr = TCPTransport("host.invalid") if kind == "tcp" else SerialTransport("/dev/null-verif")
+        tr.verif_state = state
         patches = [mock.patch("asyncio.open_connection", factory),
                    mock.patch("aiomysensors.transport.serial.open_serial_connection", factory)]
         return tr, (lambda: (state["c"], 1 if (state["w"] is not None and state["w"].closed) else 0)), patches
@@ -186,6 +188,11 @@ class LifeRun:
                 how = await self.body_future
                 if how == "raise":
                     raise BodyError("body failed")
+                if how == "eof":
+                    # the peer closes the connection cleanly; the application's read fails with the transport's
+                    # error and leaves the context through it
+                    self.transport.verif_state["r"].feed_eof()
+                    await self.gateway.transport.read()
         finally:
             self.inside = False
 
@@ -456,6 +463,8 @@ def scenarios(tier: str) -> list[dict]:
         out.append(dict(base, transport=kind, connect_fail=False, disconnect_fail=False, finish="ok", max_run_only=0))
         out.append(dict(base, transport=kind, connect_fail=True, disconnect_fail=False, finish="ok", max_run_only=0))
         out.append(dict(base, transport=kind, connect_fail=False, disconnect_fail=True, finish="raise", max_run_only=0))
+        if kind in ("tcp", "serial"):
+            out.append(dict(base, transport=kind, connect_fail=False, disconnect_fail=False, finish="eof", max_run_only=0, max_ticks=1))
     if tier == "thorough":
         out.append(dict(base, transport="fake", connect_fail=False, disconnect_fail=False, finish="ok", max_ticks=2, max_mutations=2))
         out.append(dict(base, transport="fake", connect_fail=False, disconnect_fail=False, finish="raise", max_ticks=2, max_mutations=2))
